@@ -90,6 +90,17 @@ func suiteHash(c *ctx) {
 			ps := p.scriptGrouped()
 			addPres("permuted-indexes", ps, whole(ps), plain)
 		}
+		// the default index type spelled out (MySQL)
+		if dialect == "mysql" {
+			eb := append([]Stmt{}, base...)
+			for k := range eb {
+				if eb[k].Kind == "createIndex" && eb[k].Using == "" {
+					eb[k].Using = "BTREE"
+				}
+			}
+			pres = append(pres, L("pres", q("explicit-using-btree"), stmtsSexp(eb), q(hashOf(cfg, plain, whole(eb)))))
+			c.count("pres_explicit-using-btree")
+		}
 		// the same indexes written as inline KEY / UNIQUE KEY of CREATE TABLE (MySQL)
 		if dialect == "mysql" {
 			z := cfg.newSqlize()
